@@ -171,16 +171,21 @@ theorem read_eos_iff (S : Bytes) (k : Nat) (ended : Bool) :
     simp [(decodeLine_ne_pending l).2]; omega
   | none => cases ended <;> simp [List.getElem?_eq_none_iff.mp h]
 
-/-- in order, each once: over any operation sequence the lines handed out by the reads are exactly the first `n`
-    lines of the stream delivered so far, `n` being their number -/
-theorem client_reads_in_order (ops : List Op) :
-    lineResults (crun {} ops).2 =
-      ((linesOf (fedBytes false ops)).take (lineResults (crun {} ops).2).length).map decodeLine := by
-  obtain ⟨extra, hR, hl, _⟩ := rel_run ops rel_init
+/-- in order, each once: over any operation sequence (from any client whose reader buffer is empty) the lines handed
+    out by the reads are exactly the first `n` lines of the stream delivered so far, `n` being their number -/
+theorem client_reads_in_order_from (c : Client) (hb : c.buf = []) (ops : List Op) :
+    lineResults (crun c ops).2 =
+      ((linesOf (fedBytes c.eof ops)).take (lineResults (crun c ops).2).length).map decodeLine := by
+  obtain ⟨extra, hR, hl, _⟩ := rel_run ops (rel_fresh c hb)
   have := rel_lines hR
   simp only [List.nil_append] at this hl
   rw [hl, this]
   simp
+
+theorem client_reads_in_order (ops : List Op) :
+    lineResults (crun {} ops).2 =
+      ((linesOf (fedBytes false ops)).take (lineResults (crun {} ops).2).length).map decodeLine :=
+  client_reads_in_order_from {} rfl ops
 
 /-- ... and nothing is lost: once a read finds nothing (it blocks, or reports end-of-stream), every complete line of
     the delivered stream has been handed out -/
@@ -204,16 +209,21 @@ theorem client_drained (ops : List Op)
 
 /-- messages in, messages out: when the delivered bytes are the encodings of `ms` (cut and interleaved with reads,
     writes and timeouts in any way) plus an incomplete tail, the reads hand out a prefix of `ms`, intact and in order -/
-theorem client_delivers_messages (ops : List Op) (ms : List Bytes) (tail : Bytes) (ht : NL ∉ tail)
-    (hfed : fedBytes false ops = (ms.map enc).flatten ++ tail) :
-    lineResults (crun {} ops).2 = (ms.take (lineResults (crun {} ops).2).length).map ReadRes.msg := by
-  have h := client_reads_in_order ops
+theorem client_delivers_messages_from (c : Client) (hb : c.buf = []) (ops : List Op) (ms : List Bytes) (tail : Bytes)
+    (ht : NL ∉ tail) (hfed : fedBytes c.eof ops = (ms.map enc).flatten ++ tail) :
+    lineResults (crun c ops).2 = (ms.take (lineResults (crun c ops).2).length).map ReadRes.msg := by
+  have h := client_reads_in_order_from c hb ops
   rw [hfed, linesOf, frames_exact ms tail ht] at h
   refine h.trans ?_
   simp only [← List.map_take, List.map_map]
   apply List.map_congr_left
   intro m _
   simp [decodeLine, strip_hexB, unhexB_hexB_append]
+
+theorem client_delivers_messages (ops : List Op) (ms : List Bytes) (tail : Bytes) (ht : NL ∉ tail)
+    (hfed : fedBytes false ops = (ms.map enc).flatten ++ tail) :
+    lineResults (crun {} ops).2 = (ms.take (lineResults (crun {} ops).2).length).map ReadRes.msg :=
+  client_delivers_messages_from {} rfl ops ms tail ht hfed
 
 /-- a timed-out read consumes nothing - over sequences: a read that blocks, placed anywhere in any execution, leaves
     the final state and every other observation exactly as if it had not been issued -/
@@ -259,5 +269,127 @@ theorem request_is_write_then_read (c : Client) (pre post : List Op) (m : Bytes)
     two lines in one chunk and the end of the stream inside a line -/
 example : (crun {} [.feed [0x33], .read, .feed [0x65, 0x0A, 0x31, 0x30, 0x0A, 0x32], .read, .read, .read, .eof, .read]).2 =
     [.ok, .res .pending, .ok, .res (.msg [0x3e]), .res (.msg [0x10]), .res .pending, .ok, .res .eos] := by decide
+
+/-! ### the server loop as a whole execution (`srvLoop`, `srvFeed`, `srvEof`) -/
+
+/-- request lines `ls` (any spelling that decodes: lower / upper case, CRLF, surrounding blanks) carrying the requests
+    `ms`, none of which makes the handler raise, followed by an incomplete tail: the loop hands the requests over in
+    order, writes ONE reply line per answered request, NOTHING for an unanswered one, in request order; it then waits
+    with the tail buffered - or, at end-of-stream, ends and drops the tail without handling it -/
+theorem server_replies_in_order {σ : Type} (h : σ → Bytes → σ × HRes) (st : σ) (ls ms : List Bytes) (tail : Bytes) (eof : Bool)
+    (hl : ∀ l ∈ ls, NL ∉ l) (hd : ls.map decodeLine = ms.map ReadRes.msg)
+    (hr : ∀ r ∈ (answersX h st ms).2, r ≠ .raised) (ht : NL ∉ tail) :
+    srvLoop h st (joinLines ls ++ tail) eof =
+      ((answersX h st ms).1, ((repliesOf (answersX h st ms).2).map enc).flatten,
+       if eof then (if tail = [] then .eofClean else .eofTail) else .waiting, if eof then [] else tail) := by
+  rw [srvLoop_lines h st ls ms tail eof hl hd hr, srvLoop_none h _ eof (cutLine_none_iff.mpr ht), flatten_replyBytes]
+  cases eof <;> simp
+
+/-- the same for requests in canonical spelling (what the client's `write` produces) -/
+theorem server_replies_to_client_writes {σ : Type} (h : σ → Bytes → σ × HRes) (st : σ) (ms : List Bytes) (tail : Bytes)
+    (hr : ∀ r ∈ (answersX h st ms).2, r ≠ .raised) (ht : NL ∉ tail) :
+    srvLoop h st ((ms.map enc).flatten ++ tail) false =
+      ((answersX h st ms).1, ((repliesOf (answersX h st ms).2).map enc).flatten, .waiting, tail) := by
+  have := server_replies_in_order h st (ms.map hexB) ms tail false
+    (by intro l hl; simp only [List.mem_map] at hl; obtain ⟨m, _, rfl⟩ := hl; exact nl_not_mem_hexB m)
+    (by simp [List.map_map, Function.comp_def, decodeLine, strip_hexB, unhexB_hexB_append]) hr ht
+  rw [joinLines_map_hexB] at this
+  simpa using this
+
+/-- what ends the loop besides end-of-stream: a complete line that is not hex text, or a request on which the handler
+    raises.  The replies to the earlier requests have been written; nothing is written for the offending line; whatever
+    follows it (`rest`) stays unread - the connection is left open but is no longer served -/
+theorem server_loop_ends {σ : Type} (h : σ → Bytes → σ × HRes) (st : σ) (ls ms : List Bytes) (l rest : Bytes) (eof : Bool)
+    (hl : ∀ l ∈ ls, NL ∉ l) (hd : ls.map decodeLine = ms.map ReadRes.msg)
+    (hr : ∀ r ∈ (answersX h st ms).2, r ≠ .raised) (hnl : NL ∉ l) :
+    (decodeLine l = .bad →
+      srvLoop h st (joinLines ls ++ (l ++ NL :: rest)) eof =
+        ((answersX h st ms).1, ((repliesOf (answersX h st ms).2).map enc).flatten, .undecodable, rest)) ∧
+    (∀ m, decodeLine l = .msg m → (h (answersX h st ms).1 m).2 = .raised →
+      srvLoop h st (joinLines ls ++ (l ++ NL :: rest)) eof =
+        ((h (answersX h st ms).1 m).1, ((repliesOf (answersX h st ms).2).map enc).flatten, .handlerRaised, rest)) := by
+  constructor
+  · intro hb
+    rw [srvLoop_lines h st ls ms _ eof hl hd hr, srvLoop_bad h _ l rest eof hnl hb, flatten_replyBytes]
+    simp
+  · intro m hm hraise
+    rw [srvLoop_lines h st ls ms _ eof hl hd hr, srvLoop_raise h _ l rest eof m hnl hm hraise, flatten_replyBytes]
+    simp
+
+/-- the empty line (also `\r\n`, or blanks only) decodes to the empty request; `handle_request(b"")` raises, so it ends
+    the loop like any other raising request.  Empty messages are outside the property (lengths 1..4095). -/
+theorem server_empty_line_ends {σ : Type} (h : σ → Bytes → σ × HRes) (st : σ) (l rest : Bytes) (eof : Bool)
+    (hnl : NL ∉ l) (hs : strip l = []) (hraise : (h st []).2 = .raised) :
+    srvLoop h st (l ++ NL :: rest) eof = ((h st []).1, [], .handlerRaised, rest) := by
+  have := (server_loop_ends h st [] [] l rest eof (by simp) (by simp) (by simp [answersX]) hnl).2 []
+    (by simp [decodeLine, hs, unhexB]) (by simpa [answersX] using hraise)
+  simpa [joinLines, answersX, repliesOf] using this
+
+/-- once the loop has ended nothing is ever written again, whatever arrives: the bytes only pile up unread -/
+theorem server_dead_after_end {σ : Type} (h : σ → Bytes → σ × HRes) (s : Srv σ) (hs : s.fin ≠ .waiting) (chunks : List Bytes) :
+    (chunks.foldl (srvFeed h) s).out = s.out ∧ (chunks.foldl (srvFeed h) s).fin = s.fin ∧
+    (chunks.foldl (srvFeed h) s).st = s.st ∧ (chunks.foldl (srvFeed h) s).buf = s.buf ++ chunks.flatten := by
+  rw [srvFeed_dead h s hs chunks]; simp
+
+/-- the server side is independent of the segmentation of the request stream: feeding the chunks one by one leaves
+    the connection in exactly the state of the loop run on their concatenation -/
+theorem server_any_segmentation {σ : Type} (h : σ → Bytes → σ × HRes) (st : σ) (chunks : List Bytes) :
+    chunks.foldl (srvFeed h) { st := st } = ({ st := st } : Srv σ).after (srvLoop h st chunks.flatten false) := by
+  have := srvFeed_chunks h { st := st } rfl (by simp) chunks
+  simpa using this
+
+/-! ### both directions composed -/
+
+/-- **client_server_exchange.**  A client writes the requests `ms`; the request bytes reach the server loop in ANY
+    segmentation, the reply bytes reach the client in ANY segmentation; then `n` reads return exactly the server's
+    replies to those requests - one per read, in request order, nothing for unanswered requests - followed by
+    timeouts only -/
+theorem client_server_exchange {σ : Type} (h : σ → Bytes → σ × HRes) (st : σ) (ms : List Bytes)
+    (seg1 seg2 : Bytes → List Bytes) (n : Nat)
+    (h1 : ∀ b, (seg1 b).flatten = b) (h2 : ∀ b, (seg2 b).flatten = b)
+    (hr : ∀ r ∈ (answersX h st ms).2, r ≠ .raised) :
+    exchange h st ms seg1 seg2 n =
+      ((repliesOf (answersX h st ms).2).take n).map (fun r => Obs.res (.msg r)) ++
+        List.replicate (n - (repliesOf (answersX h st ms).2).length) (.res .pending) := by
+  unfold exchange
+  simp only [crun_writes, List.nil_append]
+  rw [server_any_segmentation, h1]
+  have hs := server_replies_to_client_writes h st ms [] hr (by simp)
+  simp only [List.append_nil] at hs
+  simp only [Srv.after, hs, List.nil_append]
+  rw [crun_append, crun_feeds _ rfl]
+  simp only [h2, List.nil_append, List.length_replicate, List.drop_left']
+  exact crun_reads _ rfl _ rfl n
+
+/-- ... and with the client scheduled in any way (reads before, between and after the pieces of the reply stream,
+    timeouts anywhere, further writes): what its reads hand out is a prefix of the server's replies, intact, in order -/
+theorem client_server_exchange_any_schedule {σ : Type} (h : σ → Bytes → σ × HRes) (st : σ) (ms : List Bytes)
+    (chunks : List Bytes) (hch : chunks.flatten = (crun {} (ms.map .write)).1.out)
+    (hr : ∀ r ∈ (answersX h st ms).2, r ≠ .raised)
+    (ops : List Op) (hfed : fedBytes false ops = (chunks.foldl (srvFeed h) { st := st }).out) :
+    lineResults (crun (crun {} (ms.map .write)).1 ops).2 =
+      ((repliesOf (answersX h st ms).2).take (lineResults (crun (crun {} (ms.map .write)).1 ops).2).length).map ReadRes.msg := by
+  rw [server_any_segmentation, hch] at hfed
+  simp only [crun_writes, List.nil_append] at hfed ⊢
+  have hs := server_replies_to_client_writes h st ms [] hr (by simp)
+  simp only [List.append_nil] at hs
+  simp only [Srv.after, hs, List.nil_append] at hfed
+  exact client_delivers_messages_from _ rfl ops _ [] (by simp) (by simpa using hfed)
+
+/-- non-vacuity: a handler that answers, stays silent and raises -/
+def exampleHandler (n : Nat) (m : Bytes) : Nat × HRes :=
+  (n + 1, if m = [] then .raised else if m = [0x10] then .silent else .reply (m ++ [UInt8.ofNat n]))
+
+example : exchange exampleHandler 0 [[0x3e], [0x10], [0x27]] (cutBy [1, 2]) (cutBy [3]) 3 =
+    [.res (.msg [0x3e, 0x00]), .res (.msg [0x27, 0x02]), .res .pending] := by
+  rw [client_server_exchange exampleHandler 0 _ _ _ 3 (cutBy_flatten _) (cutBy_flatten _) (by decide)]
+  decide
+
+/-- an upper-case CRLF request is answered, the empty line that follows ends the loop, the request after it is never
+    served -/
+example : srvLoop exampleHandler 0 (joinLines [[0x33, 0x45, 0x0D]] ++ ([] ++ NL :: [0x33, 0x65, 0x0A])) false =
+    (2, [0x33, 0x65, 0x30, 0x30, 0x0A], .handlerRaised, [0x33, 0x65, 0x0A]) :=
+  (server_loop_ends exampleHandler 0 [[0x33, 0x45, 0x0D]] [[0x3e]] [] [0x33, 0x65, 0x0A] false
+    (by decide) (by decide) (by decide) (by decide)).2 [] (by decide) (by decide)
 
 end Gallia.C19
